@@ -103,7 +103,7 @@ def judge(case, obs):
             psock = net.socks[psid]
             if pok and not fired_by_call.get(i) or (pok and used):
                 if T == 0 or gap <= T:
-                    if pok and used[0] != psid and not psock.closed_before(i):
+                    if pok and used[0] != psid:
                         v("HEALTHY_CONNECTION_NOT_REUSED:%s" % op[0],
                           "call %d %s opened/used socket %r although socket %d was healthy and idle for %.0fs (timeout %r) [%s]"
                           % (i, op[0], used, psid, gap, T, fclass))
@@ -124,7 +124,12 @@ def judge(case, obs):
         if used:
             sid = used[-1]
             s = net.socks[sid]
-            healthy = (out[0] == "ret" and not s.closed_before(i + 1) and not s.peer_closed and not fired_by_call.get(i)
+            item_miss = (out[0] == "exc" and out[1] == "KeyError" and op[0] in ("__getitem__", "__delitem__"))
+            # healthy = nothing went wrong on it in this call; whether the library nevertheless closed it is what (b) judges
+            # (with ignore_exc a normal return may hide a failure the library rightly reacted to by closing: there a socket
+            #  the library closed is not called healthy)
+            healthy = ((out[0] == "ret" or item_miss) and not s.peer_closed and not fired_by_call.get(i)
+                       and (not case["cfg"].get("ignore_exc") or not s.closed_before(i + 1))
                        and op[0] not in ("quit", "shutdown", "close"))
             last_io = (i, sid, end_at[i], healthy)
         elif out[0] != "ret" or fired_by_call.get(i):
